@@ -99,9 +99,6 @@ def run(ctx):
                 for cs, leaf in normal_leaves(v):
                     same_term(ob, leaf, _key_obj(keyb), 'from_wif(%scompressed) takes bytes 1..32 of the payload as the scalar'
                               % ('' if comp else 'un'), ffw.where)
-                    if comp:
-                        flag = T.eq(T.getitem(D, T.const(33)), T.const(1))
-                        ob.require(flag in known_at(f, cs), 'the trailing compression flag byte is not checked to be 01', ffw.where)
                 ob.require(T.raw_op('VALID_SK', keyb) in closure(f) or not normal_leaves(v),
                            'from_wif builds the key through the validating constructor', ffw.where)
             # the decoder in front is the checksummed one
